@@ -363,6 +363,7 @@ pub mod shims {
         // acme_proto/http.rs::get_certificate (unit http): the result is the body of the download response
         #[verifier::external_body]
         pub fn get_certificate<F: Fn(&str, &str) -> Result<String, Error>>(e: &mut Endpoint, d: &F, u: &str, Tracked(w): Tracked<&mut World>) -> (r: Result<String, HttpError>)
+            requires old(w).cert_url == Some(u@), //@C03.the_certificate_is_downloaded_from_the_url_the_order_gives,C02.the_certificate_is_downloaded_from_the_url_the_order_gives
             ensures final(w).cur_auth == old(w).cur_auth, final(w).hooks_ok == old(w).hooks_ok, final(w).pending_clean == old(w).pending_clean,
                 final(w).key_written == old(w).key_written, final(w).cert_written == old(w).cert_written, final(w).pair_installed == old(w).pair_installed, final(w).disk_key == old(w).disk_key,
                 match r { Ok(s) => final(w).downloaded == Some(s@), Err(_) => final(w).downloaded == old(w).downloaded },
